@@ -120,6 +120,9 @@ class PythonFragment(PythonCode):
         elif keyword == "except":
             code = "try:pass\n" + code + "pass"
             lineno_offset = -1
+        elif keyword == "finally":
+            code = "try:pass\n" + code + "pass"
+            lineno_offset = -1
         elif keyword == "with":
             code = code + "pass"
         else:
